@@ -39,6 +39,12 @@ def step_sig(hist, ej):
         if x.get("e") == "dev":
             dev = x["op"]["on"]
     where = "%s:%s:m=%s:kf=%s%s" % (o.get("ch"), o.get("ep"), o.get("m") or "default", o.get("kf"), ":dev" if dev else "")
+    # the two ways a bridge call can fail on its own, whatever the endpoint: one signature each
+    b = ev.get("b") if e == "pair" else ev.get("ob") if e == "call" and o.get("ch") != "http" else None
+    if b is not None and b.get("ec") == "panic":
+        return "bridge:panic:key=weird" if o.get("kf") == "weird" and o.get("m") != "bad" else "bridge:panic:m=%s" % (o.get("m") or "default")
+    if b is not None and b.get("ec") == "code" and 200 <= b.get("code", 0) <= 299:
+        return "bridge:status-%d-reported-as-error" % b["code"]
     if e == "call":
         ob = ev["ob"]
         cred = ":cred=%s" % o.get("cred") if o.get("ch") == "http" else ""
@@ -122,7 +128,7 @@ def run(ctx):
     pool = ThreadPoolExecutor(max_workers=1)
     laws_future = pool.submit(laws)
     # 2. histories from the specification
-    nsim = 1600 if quick else 32000
+    nsim = 2400 if quick else 24000
     t0 = time.time()
     scripts = generate(ctx, nsim)
     vlib.log("x10: %d histories generated in %.1fs" % (len(scripts), time.time() - t0))
